@@ -444,6 +444,101 @@ def _escapes(loop: ast.For, names, root) -> bool:
     return bool(found)
 
 
+def lower_conditional_with(stmts: list[ast.stmt]) -> list[ast.stmt]:
+    """with (A if c else B) as t: BODY   ->   if c: with A as t: BODY  else: with B as t: BODY       (also via a local bound just before)
+       with nullcontext(E) as t: BODY    ->   t = E; BODY                                            (contextlib.nullcontext hands out E and does nothing else)"""
+    out = []
+    stmts = list(stmts)
+    i = 0
+    while i < len(stmts):
+        s_ = stmts[i]
+        nxt = stmts[i + 1] if i + 1 < len(stmts) else None
+        # S = A if c else B ; with S as t:   (S read nowhere else)
+        if isinstance(s_, ast.Assign) and len(s_.targets) == 1 and isinstance(s_.targets[0], ast.Name) and isinstance(s_.value, ast.IfExp) \
+                and isinstance(nxt, ast.With) and len(nxt.items) == 1 and isinstance(nxt.items[0].context_expr, ast.Name) and nxt.items[0].context_expr.id == s_.targets[0].id:
+            x = s_.targets[0].id
+            reads = sum(1 for y in stmts for n in ast.walk(y) if isinstance(n, ast.Name) and n.id == x)
+            if reads == 2:
+                nxt.items[0].context_expr = s_.value
+                i += 1
+                continue
+        for fld in ("body", "orelse", "finalbody"):
+            b = getattr(s_, fld, None)
+            if isinstance(b, list) and b and isinstance(b[0], ast.stmt) and not isinstance(s_, (ast.FunctionDef, ast.AsyncFunctionDef, ast.ClassDef)):
+                setattr(s_, fld, lower_conditional_with(b))
+        if isinstance(s_, ast.Try):
+            for h in s_.handlers:
+                h.body = lower_conditional_with(h.body)
+        if isinstance(s_, ast.With) and len(s_.items) == 1:
+            ce = s_.items[0].context_expr
+            if isinstance(ce, ast.IfExp) and is_pure(ce.test):
+                a, b = copy.deepcopy(s_), copy.deepcopy(s_)
+                a.items[0].context_expr, b.items[0].context_expr = ce.body, ce.orelse
+                new = ast.If(test=ce.test, body=lower_conditional_with([a]), orelse=lower_conditional_with([b]))
+                ast.copy_location(new, s_)
+                ast.fix_missing_locations(new)
+                out.append(new)
+                i += 1
+                continue
+            if isinstance(ce, ast.Call) and u(ce.func) in ("nullcontext", "contextlib.nullcontext") and len(ce.args) <= 1 and not ce.keywords:
+                tv = s_.items[0].optional_vars
+                pre = []
+                if tv is not None and ce.args:
+                    pre = [ast.Assign(targets=[tv], value=ce.args[0])]
+                elif tv is not None:
+                    pre = [ast.Assign(targets=[tv], value=ast.Constant(None))]
+                elif ce.args and not is_pure(ce.args[0]):
+                    pre = [ast.Expr(value=ce.args[0])]
+                for x_ in pre:
+                    ast.copy_location(x_, s_)
+                    ast.fix_missing_locations(x_)
+                out += pre + list(s_.body)
+                i += 1
+                continue
+        out.append(s_)
+        i += 1
+    return out
+
+
+def drop_loops_over_falsy(stmts: list[ast.stmt]) -> list[ast.stmt]:
+    """if x: A else: B   --  inside B (x is falsy there and B does not rebind it first) `for v in x: ..` runs no iteration"""
+    def strip(block, ref):
+        out = []
+        live = True
+        for s_ in block:
+            if live and isinstance(s_, ast.For) and u(s_.iter) == ref and not s_.orelse:
+                continue
+            if any(isinstance(n, ast.Name) and isinstance(n.ctx, (ast.Store, ast.Del)) and n.id == ref.split(".")[0].split("[")[0] for n in ast.walk(s_)):
+                live = False
+            out.append(s_)
+        return out or [ast.Pass()]
+
+    def rec(block):
+        for s_ in block:
+            for fld in ("body", "orelse", "finalbody"):
+                b = getattr(s_, fld, None)
+                if isinstance(b, list) and b and isinstance(b[0], ast.stmt) and not isinstance(s_, (ast.FunctionDef, ast.AsyncFunctionDef, ast.ClassDef)):
+                    setattr(s_, fld, rec(b))
+            if isinstance(s_, ast.Try):
+                for h in s_.handlers:
+                    h.body = rec(h.body)
+            if isinstance(s_, ast.If):
+                t, neg = s_.test, False
+                while isinstance(t, ast.UnaryOp) and isinstance(t.op, ast.Not):
+                    t, neg = t.operand, not neg
+                if isinstance(t, ast.Call) and isinstance(t.func, ast.Name) and t.func.id == "bool" and len(t.args) == 1:
+                    t = t.args[0]
+                if isinstance(t, ast.Name):
+                    if neg:
+                        s_.body = strip(s_.body, t.id)
+                    elif s_.orelse:
+                        s_.orelse = strip(s_.orelse, t.id)
+                        if all(isinstance(x, ast.Pass) for x in s_.orelse):
+                            s_.orelse = []
+        return block
+    return rec(list(stmts))
+
+
 def try_lookup_to_get(stmts: list[ast.stmt]) -> list[ast.stmt]:
     """try: t = X[k]  except KeyError: t = D         ->   t = X.get(k, D)          (Mapping.get is defined as exactly this)
        try: t = X[k]  except KeyError: return D ; return t    ->   return X.get(k, D)
